@@ -147,3 +147,18 @@ Definition count_id (i : id) (l : list id) : nat := length (filter (N.eqb i) l).
 Definition dup_union_name (x : item) : bool :=
   let ids := all_ids x in
   existsb (fun i => (2 <=? count_id i ids)%nat) (union_member_ids x).
+
+(* a REDEFINES whose target is itself a redefining item (finding K-redefines-of-redefiner): structure() overwrites the
+   REDEFINES clause of the middle item with the item's own name, so build_json_schema files it - and everything that
+   redefines it - under a NEW oneOf placed after the first union instead of where the original item begins *)
+Fixpoint chained_redef (x : item) : bool :=
+  match x with
+  | Elem _ _ _ _ => false
+  | Group _ _ _ ks => kids_chained (redef_targets ks) ks
+  end
+with kids_chained (targets : list id) (ks : items) : bool :=
+  match ks with
+  | INil => false
+  | ICons x xs =>
+      (is_redefiner x && existsb (N.eqb (item_id x)) targets) || chained_redef x || kids_chained targets xs
+  end.
